@@ -148,7 +148,7 @@ def c05(tier, seed, wd, replay=None):
         if tier == "quick":
             run_cached_config(run, name, consts, wd, spec, "sampled")    # on / offmut / buildoff by hash
         else:
-            for variant in ("on", "offmut", "buildoff"):
+            for variant in ("on", "offmut", "buildoff", "off2"):
                 run_cached_config(run, name, consts, wd, spec, variant)
     if full:
         run_cached_config(run, "links-2x2-DT-fullkeys", ST.cfg("x", Kinds={"D", "T"}, MaxEnds=2)[1], wd,
@@ -167,7 +167,7 @@ def c05(tier, seed, wd, replay=None):
                  lambda c: c.startswith("setv:") and "|offmut" in c,
                  lambda c: c.startswith("new:") and "|buildoff" in c,
                  lambda c: c.startswith("lunl:") and "|on" in c,
-                 lambda c: c.startswith("ladd:"),
+                 lambda c: c.startswith("ladd:"), lambda c: c.startswith("ladd:") and "|off2" in c,
                  lambda c: c.startswith("unlink:"),
                  lambda c: c.startswith("fresh-interpreter:") and "mutate-first" in c,
                  lambda c: c.startswith("trace:toggle"), lambda c: c.startswith("loaddict"), lambda c: c.startswith("loadmat")]
